@@ -33,6 +33,8 @@ def c_layout(v, conv, flags, width, prec):
     """C99 integer conversion layout for a (possibly negative) value; o/x/X of negatives print '-' + magnitude (MPIR's signed extension)"""
     base = {"d": 10, "i": 10, "o": 8, "x": 16, "X": -16}[conv]
     digs = to_str(abs(v), base)
+    if prec is not None and prec < 0:
+        prec = None              # a negative precision argument is taken as if the precision were omitted
     if prec is not None:
         if v == 0 and prec == 0:
             digs = ""
@@ -109,14 +111,32 @@ def spaces(tier, variant, seed):
 
     LV = [0, 1, -1, 7, -8, 9, 10, -10, 255, -256, 4095, 65535, -65536, 123456789, -1234567890, (1 << 31) - 1, -(1 << 31), 1 << 32, -(1 << 32) - 1,
           10 ** 15, -(10 ** 15) - 7, LMAX, LMIN, LMIN + 1, LMAX - 1, 99, -100]
+    if tier != "quick" and variant != "asan":
+        # thorough: every power of two and of ten with its neighbours, both signs
+        extra = set()
+        for k in range(0, 64):
+            for d in (-1, 0, 1):
+                for sg_ in (1, -1):
+                    v_ = sg_ * ((1 << k) + d)
+                    if LMIN <= v_ <= LMAX:
+                        extra.add(v_)
+        for k in range(0, 19):
+            for d in (-1, 0, 1):
+                for sg_ in (1, -1):
+                    extra.add(sg_ * (10 ** k + d))
+        LV = LV + sorted(extra - set(LV))
     if variant == "asan":
         LV = LV[::3]
 
     def widths(n):
+        if tier != "quick":
+            return [None] + list(range(0, n + 6)) + [("*", n + 2), ("*", -(n + 2)), ("*", 0), 260, ("*", -300), 513]
         return [None, 1, max(n - 1, 0), n, n + 3, ("*", n + 2), ("*", -(n + 2)), 260, ("*", -300)]
 
     def precs(n):
-        return [None, 0, 1, n, n + 3, ("*", n + 1)]
+        if tier != "quick":
+            return [None] + list(range(0, n + 5)) + [("*", n + 1), ("*", -1), 300]
+        return [None, 0, 1, n, n + 3, ("*", n + 1), ("*", -1)]
 
     def spec(fs, w, p, typ, conv):
         s = "%" + fs
@@ -188,7 +208,7 @@ def spaces(tier, variant, seed):
         return (conv, fs, wi, pi, al.sgn(v), n == 1)
 
     sp.append(Space("Z_vs_libc", [(c, vi) for c in "dioxX" for vi in range(len(LV))], zi_cases, zi_one,
-                    "%Z{d,i,o,x,X} (and %M): every meaningful flag subset x 9 widths (incl. 260 and * = -300) x 6 precisions x values fitting a long: byte identical to libc snprintf with %l"))
+                    "%Z{d,i,o,x,X} (and %M): every meaningful flag subset x 9 widths (incl. 260 and * = -300) x 7 precisions (incl. * = -1) x values fitting a long: byte identical to libc snprintf with %l"))
 
     BIG = [1 << 64, -(1 << 64), 10 ** 30 + 7, -(10 ** 30) - 7, (1 << 200) - 1, -(1 << 200), 10 ** 199, al.PAT(3)["dense"], -al.PAT(5)["dense"], M, -M - 1]
 
